@@ -495,6 +495,20 @@ def make_points(truth, rng, n_rand, n_bnd, eps):
 
 
 # ------------------------------------------------------------------ the core comparison
+def pmodel(R, lines, nproc=None):
+    """R.model over several driver processes at once (the extracted model's exact integer arithmetic is slow; cases are independent)"""
+    import os
+    from concurrent.futures import ThreadPoolExecutor
+    nproc = nproc or max(1, min(8, (os.cpu_count() or 2) - 1))
+    if len(lines) < 4 * nproc:
+        return R.model(lines)
+    size = (len(lines) + 4 * nproc - 1) // (4 * nproc)       # 4 slices per worker: uneven case costs balance out
+    parts = [lines[i:i + size] for i in range(0, len(lines), size)]
+    with ThreadPoolExecutor(max_workers=nproc) as ex:
+        res = list(ex.map(R.model, parts))
+    return [o for part in res for o in part]
+
+
 class Batch:
     """collects cases of one stream, runs the model once, compares the three parties"""
 
@@ -514,7 +528,8 @@ class Batch:
             impl = np.asarray(roi.contains(P[:, 0], P[:, 1])).astype(bool)
             ctr = center_pair(roi)
         except Exception as e:  # the implementation must not raise on a defined region
-            R.fail('oracle', case, {'why': 'implementation raised %s: %s' % (type(e).__name__, e)}, key=None)
+            small = dict(case, ops=jspec(shrink_raise(spec, ops, P)), points=P[:1].tolist())
+            R.fail('oracle', small, {'why': 'implementation raised %s: %s' % (type(e).__name__, e)}, key=None)
             R.count(('err', repr(case['roi']), repr(case['ops'])), nontrivial=False, stream=self.stream, kind=spec[0], outcome='raised')
             return None
         eps = case_eps(truth, P, info)
@@ -546,7 +561,7 @@ class Batch:
         R = self.R
         if not self.items:
             return
-        outs = R.model([it[1] for it in self.items])
+        outs = pmodel(R, [it[1] for it in self.items])
         for (case, line, impl, orc, ctr, eps, truth, spec, ops, extra), o in zip(self.items, outs):
             ncmp = sum(1 for v in orc if v != 2)
             nin = sum(1 for v in orc if v == 1)
@@ -587,6 +602,37 @@ def poly_center_tol(truth):
     if a2 == 0:
         return 1e-9 * sc
     return max(1e-9 * sc, 1e-13 * sc ** 3 / float(a2) * n)
+
+
+def raises(spec, ops, P):
+    try:
+        roi, _, _ = run_impl(spec, ops)
+        roi.contains(P[:1, 0], P[:1, 1])
+        center_pair(roi)
+        return False
+    except Exception:
+        return True
+
+
+def shrink_raise(spec, ops, P):
+    """shortest prefix of the operation sequence on which the implementation still raises"""
+    for k in range(len(ops) + 1):
+        if raises(spec, ops[:k], P):
+            return ops[:k]
+    return ops
+
+
+class Collect:
+    """stand-in for Run when one stored case is replayed"""
+
+    def __init__(self):
+        self.failures = []
+
+    def fail(self, kind, case, detail, key=None):
+        self.failures.append({'kind': kind, 'detail': detail})
+
+    def count(self, *a, **k):
+        pass
 
 
 def point_violates(spec, ops, p):
@@ -665,7 +711,8 @@ def random_angle(rng):
     if u < 0.15:
         return None
     if u < 0.55:
-        return ('mult', rng.randrange(-4, 9), rng.choice(DELTAS))
+        # also offsets far outside the isclose window (4.9e-4, 1.9e-6): these must take the general branch
+        return ('mult', rng.randrange(-4, 9), rng.choice(DELTAS + [12, -12, 20, -20]))
     a, b, h = rng.choice(PYTH)
     return ('pyth', a, b, h)
 
@@ -776,7 +823,7 @@ def stream_small(R):
             P = make_points(truth, rng, R.pick(14, 24), R.pick(10, 16), truth.scale() * EPS_SCALE)
             B.add(spec, ops, P)
             n += 1
-            if n % 400 == 0:
+            if n % 2000 == 0:
                 B.finish()
     B.finish()
     R.stream('small', cases=n, exhaustive=True,
@@ -811,7 +858,7 @@ def stream_random(R):
             truth = Truth.of_spec(spec)
         P = make_points(truth, rng, R.pick(24, 40), R.pick(16, 24), truth.scale() * EPS_SCALE)
         B.add(spec, ops, P, sub=i)
-        if i % 500 == 499:
+        if i % 2000 == 1999:
             B.finish()
     B.finish()
     R.stream('random', cases=n, exhaustive=False, bound='random class, dyadic parameters (thin and zero-width shapes included), <= 4 operations, 40-64 points per case '
@@ -988,7 +1035,7 @@ def stream_projected(R):
         items.append((case, one, overd, xyz))
         R.count(('proj', repr(case['roi']), repr(case['ops']), repr(case['matrix'])), nontrivial=bool(one.any() and not one.all()), stream='projected',
                 kind=spec[0], chunk=chunk)
-    outs = R.model(lines)
+    outs = pmodel(R, lines)
     for (case, one, overd, xyz), o in zip(items, outs):
         if is_err(o):
             R.fail('correspondence', case, {'why': 'model error', 'model': o})
@@ -1150,20 +1197,18 @@ def replay(R, case):
             spec = ('poly', tuple(tuple(v) for v in spec[1])) + tuple(spec[2:])
         ops = unjspec(case['ops'])
         P = np.array(case['points'], dtype=float).reshape(-1, 2)
-        try:
-            roi, truth, info = run_impl(spec, ops)
-            impl = np.asarray(roi.contains(P[:, 0], P[:, 1])).astype(bool).tolist()
-        except Exception as e:
-            out.update(impl='raised %s: %s' % (type(e).__name__, e), violates=True)
-            return out
-        eps = case_eps(truth, P, info)
-        orc = [truth.verdict(p, eps) for p in pts_exact(P)]
-        out.update(impl=impl, oracle=orc, eps=float(eps), center=center_pair(roi))
-        out['violates'] = any(v != 2 and b != (v == 1) for v, b in zip(orc, impl))
-        if R.model_available:
-            line = enc((1, [q(eps), spec_tree(spec), (0, info.mops), (0, [(0, [q(a), q(b)]) for a, b in pts_exact(P)])]))
-            o = R.model([line])[0]
-            out['model'] = [t_[0] for t_ in kids(kids(o)[1])] if tag(o) == 0 else 'error'
+        C = Collect()
+        B = Batch(C, st)
+        res = B.add(spec, ops, P)
+        orc_fail = [f for f in C.failures if f['kind'] == 'oracle']
+        out['oracle_failures'] = [f['detail'] for f in orc_fail]
+        out['violates'] = bool(orc_fail)
+        if res is not None:
+            roi, truth, info, impl, orc, eps = res
+            out.update(impl=impl.tolist(), oracle=orc, eps=float(eps))
+            if R.model_available and B.items:
+                o = R.model([B.items[0][1]])[0]
+                out['model'] = [t_[0] for t_ in kids(kids(o)[1])] if tag(o) == 0 else 'error'
     else:
         out['note'] = 'replay by re-running the stream with the stored seed: VERIF_SEED=<seed> ./check C08 --tier <tier>'
         out['violates'] = False
